@@ -7,12 +7,17 @@
    Over whole histories (C19_events_explain_vehicles, macro frame theorem; any controller; from a loaded state with nothing
    filed yet): per vehicle the distances of its move events sum to the growth of its odometer and the energies of its charge
    events to the growth of energy_gained.  (The waiting-map / pickup / cancel accounting over histories is C03_ledger_over_histories.)
-   PARTIAL: the station-load events, the summary counts and the round-trip through the file-writing
-   handlers are decided by the log engine harness/eng_c19.py + monitors, not by theorems. *)
+   Station load and summary (Model/Reports.v = hand model of construct_station_load_events and StatsHandler.handle, tied to the
+   source by harness/eng_reports.py on generated batches): C19_station_load_is_sum_of_charge_events — for ANY batch of reports and
+   station list, exactly the stations of the simulation and those named by a charge event get a load record (one map key each)
+   and its energy is the sum of the batch's charge events there; C19_summary_counts_events — after ANY sequence of batches the
+   summary's request / cancellation counters are the numbers of add / cancel events and its distance the sum of the move events.
+   PARTIAL: the round-trip through the file-writing handlers (json lines) is decided by the log engine harness/eng_c19.py. *)
 From Hive.Base Require Import Prelude.
 From Hive.Model Require Import Types KernelBase SimOps States Step.
 From Hive.Gen Require Import Kernels.
-From Hive.Proofs Require Import Trip Move VehFrame Macro CountInv AcctInv.
+From Hive.Model Require Import Reports.
+From Hive.Proofs Require Import Trip Move VehFrame Macro CountInv AcctInv ReportsP.
 Local Open Scope Q_scope.
 
 Theorem C19_move_event : forall env s vid s', move env s vid = Ok s' -> move_outcome env s vid s'.
@@ -50,6 +55,17 @@ Proof.
   intros k v0 F. destruct (V k v0 F) as (v & Fv & (A & G & _)). eauto.
 Qed.
 Print Assumptions C19_events_explain_vehicles.
+Theorem C19_station_load_is_sum_of_charge_events : forall reports sids sid,
+  (PM.find sid (station_loads reports sids) <> None <-> (In sid sids \/ charged_at reports sid)) /\
+  qget sid (station_loads reports sids) == load_total reports sid.
+Proof. exact station_load_is_sum_of_charge_events. Qed.
+Theorem C19_summary_counts_events : forall batches st,
+  let st' := fold_left stats_handle batches st in
+  st_requests st' = (st_requests st + count_ev is_add (concat batches))%Z /\
+  st_cancelled st' = (st_cancelled st + count_ev is_cancel (concat batches))%Z /\
+  st_vkt st' == st_vkt st + dist_total (concat batches).
+Proof. exact summary_counts_events. Qed.
+Print Assumptions C19_station_load_is_sum_of_charge_events. Print Assumptions C19_summary_counts_events.
 
 Print Assumptions C19_move_event. Print Assumptions C19_move_event_distance.
 Print Assumptions C19_charge_event. Print Assumptions C19_pickup_event.
